@@ -296,6 +296,22 @@ def _attrs_stripped_by_encoder(P, f):
                     for var, helpers in table.items():
                         if isinstance(var, str) and isinstance(helpers, (tuple, list, set, frozenset)):
                             out |= {(var, h) for h in helpers if isinstance(h, str)}
+        elif isinstance(st, ast.Assign) and len(st.targets) == 1 and is_attrs_of(st.targets[0], lambda sl: str_const(sl) is not None) \
+                and isinstance(st.value, ast.DictComp) and len(st.value.generators) == 1:
+            # ds["var"].attrs = {k: v for k, v in ds["var"].attrs.items() if k not in ("a", "b")}     (also what a loop over a constant table normalises to)
+            var = str_const(st.targets[0].value.slice)
+            v = st.value
+            gen = v.generators[0]
+            src_ok = (isinstance(gen.iter, ast.Call) and isinstance(gen.iter.func, ast.Attribute) and gen.iter.func.attr == "items"
+                      and is_attrs_of(gen.iter.func.value, lambda sl: str_const(sl) == var))
+            tgt_ok = isinstance(gen.target, ast.Tuple) and len(gen.target.elts) == 2 and all(isinstance(e, ast.Name) for e in gen.target.elts)
+            if src_ok and tgt_ok and len(gen.ifs) == 1:
+                kk, vv = gen.target.elts[0].id, gen.target.elts[1].id
+                ident = isinstance(v.key, ast.Name) and v.key.id == kk and isinstance(v.value, ast.Name) and v.value.id == vv
+                c = gen.ifs[0]
+                if ident and isinstance(c, ast.Compare) and len(c.ops) == 1 and isinstance(c.ops[0], ast.NotIn) and isinstance(c.left, ast.Name) and c.left.id == kk \
+                        and isinstance(c.comparators[0], (ast.Tuple, ast.List, ast.Set)) and all(str_const(e) is not None for e in c.comparators[0].elts):
+                    out |= {(var, str_const(e)) for e in c.comparators[0].elts}
         elif isinstance(st, ast.Delete):
             for t in st.targets:
                 if isinstance(t, ast.Subscript) and str_const(t.slice) and is_attrs_of(t.value, lambda sl: str_const(sl) is not None):
